@@ -86,6 +86,27 @@ _IDENTITY4 = np.eye(4, dtype=np.float64)
 _IDENTITY4.flags.writeable = False
 
 
+def _copy_cached(value):
+    """
+    Get a value that can be put into the cache of a copied mesh:
+    immutable values are returned as-is and anything which could
+    be edited through one of the two meshes is copied.
+    """
+    if isinstance(value, np.ndarray) and not value.flags.writeable:
+        # cached arrays are read-only
+        return value
+    if isinstance(value, (bool, int, float, str, bytes, type(None), np.generic)):
+        return value
+    if type(value).__module__.split(".")[0] == "rtree":
+        # owns a copy of the bounds it was built from and can't be copied
+        return value
+    try:
+        # includes KD-trees which view the vertex buffer they were built from
+        return copy.deepcopy(value)
+    except BaseException:
+        return value
+
+
 class Trimesh(Geometry3D):
     def __init__(
         self,
@@ -3160,12 +3181,12 @@ class Trimesh(Geometry3D):
             # make sure we are not handing over values computed
             # before our own data was last changed in-place
             self._cache.verify()
-            # shallow copy cached items into the new cache
-            # since the data didn't change here when the
-            # data in the new mesh is changed these items
-            # will be dumped in the new mesh but preserved
-            # in the original mesh
-            copied._cache.cache.update(self._cache.cache)
+            # copy cached items into the new cache: since the
+            # data didn't change here when the data in the new
+            # mesh is changed these items will be dumped in
+            # the new mesh but preserved in the original mesh
+            for key, value in self._cache.cache.items():
+                copied._cache.cache[key] = _copy_cached(value)
 
         return copied
 
